@@ -404,6 +404,32 @@ WHOLE = [
      'm1, m2, m3 = make(g, 1), make(h, 2), make(g5, 3)\n'
      'm4 = make(g, 4)\nm4.__defaults__ = None\nm4.__kwdefaults__ = None\n',
      ['f3', 'f', 'f2', 'f4', 'm1', 'm2', 'm3', 'm4']),
+    ('declaration_without_target',
+     'class Ham0(object):\n'
+     '    @specifiers.forwards_to_method("missing")\n'
+     '    def spam(self, c, *args, **kwargs):\n        return self.missing(*args, **kwargs)\n'
+     '    @specifiers.forwards_to_method("missing", emulate=True)\n'
+     '    def spam2(self, c, *args, **kwargs):\n        return self.missing(*args, **kwargs)\n'
+     '    @specifiers.forwards_to_method("later.deep")\n'
+     '    def spam3(self, c, *args, **kwargs):\n        return self.later.deep(*args, **kwargs)\n'
+     'class Base0(object):\n    pass\n'
+     'class Sub0(Base0):\n'
+     '    @specifiers.forwards_to_super()\n'
+     '    def m(self, a, *args, **kwargs):\n        return super().m(*args, **kwargs)\n'
+     'ham0 = Ham0()\nsub0 = Sub0()\n',
+     ['ham0.spam', 'ham0.spam2', 'ham0.spam3', 'Ham0.spam', 'sub0.m', 'Sub0.m']),
+    ('partials_that_do_not_fit',
+     'def f(a, **kwargs):\n    return g(a, **kwargs)\n'
+     'def f2(a, *args, **kwargs):\n    return g(*args, **kwargs)\n'
+     'class M0(object):\n    def m(self, a, **kwargs):\n        return g(a, **kwargs)\nm0 = M0()\n'
+     'p_toomany = functools.partial(f, 1, 2)\n'
+     'p_badkw = functools.partial(f2, 1, nosuch=3)\n'
+     'p_twice = functools.partial(f, 1, a=2)\n'
+     'p_of_p = functools.partial(functools.partial(f, 1), 2)\n'
+     'p_toomany2 = functools.partial(f2, 1, 2, 3, 4)\n'
+     'pm_toomany = functools.partial(m0.m, 1, 2)\n'
+     'p_ok = functools.partial(f2, 1, 2)\n',
+     ['p_toomany', 'p_badkw', 'p_twice', 'p_of_p', 'p_toomany2', 'pm_toomany', 'p_ok']),
     ('pep563_module', '#FUTURE#\nimport typing\n'
                       'def noparams() -> typing.List[int]:\n    return []\n'
                       'def fwd(*args, **kwargs) -> int:\n    return g(*args, **kwargs)\n'
